@@ -1740,3 +1740,184 @@ func RunServerVersions(r *chk.Run) {
 	r.DistinctN(n)
 	r.Set("server_version_histories", n)
 }
+
+// ---- scale: long streams, big transactions, wide tables, big events ------------------
+
+// checkCustom streams a laid-out history from its start, compares every delivery
+// with the reference and reads every kept transaction again after the stream.
+func checkCustom(h *ref.History, mapper *hx.Mapper) string {
+	start := ref.Position{File: h.Files[0].Name, Pos: 4}
+	served, err := h.Serve(start.File, 4)
+	if err != nil {
+		return "generator error: " + err.Error()
+	}
+	exp, stop := ref.Expect(served, start)
+	if stop != nil {
+		return "generator error: " + stop.Why
+	}
+	out := Run(h, Opts{Start: start, ServerID: 3, LockStep: false, KeepTx: true, Mapper: mapper})
+	if out.Hung {
+		return "HUNG"
+	}
+	if out.StreamPanic[0] != "" {
+		return "panic in Stream: " + firstLine(out.StreamPanic[0])
+	}
+	if out.StreamErr[0] != nil {
+		return fmt.Sprintf("Stream failed on a well-formed binlog after %d of %d transactions: %s", len(out.Deliveries), len(exp), clip(out.StreamErr[0].Error(), 200))
+	}
+	if d := hx.CompareAll(exp, out.Snaps()); d != "" {
+		return d
+	}
+	for i, d := range out.Deliveries {
+		if diff := d.Snap.Diff(hx.Snapshot(d.Tx)); diff != "" {
+			return fmt.Sprintf("delivery %d changed after it was delivered (re-read after the stream ended): %s", i, clip(diff, 300))
+		}
+	}
+	return ""
+}
+
+// ScaleInput is the replay form of a scale execution.
+type ScaleInput struct {
+	Case string  `json:"case"`
+	N    int     `json:"n"`
+	Cfg  ref.Cfg `json:"cfg"`
+}
+
+func scaleHistory(in ScaleInput) *ref.History {
+	g := &Gen{Cfg: in.Cfg}
+	var evs []*ref.AEvent
+	switch in.Case {
+	case "table-ids":
+		// N two-table statements, every table with an id and a name of its own
+		// (a bounded or hashed table cache meets a second table map at every size)
+		for i := 0; i < in.N; i++ {
+			ts := g.tick()
+			ta := &ref.Table{ID: uint64(1000 + 2*i), DB: fmt.Sprintf("tenant_%06d", i), Name: "orders", Flags: 1, Cols: []ref.Column{
+				ref.ColInt(ref.TLong, "id", false), ref.ColVarchar("label", 40), ref.ColInt(ref.TShort, "qty", true)}}
+			tb := &ref.Table{ID: uint64(1001 + 2*i), DB: fmt.Sprintf("tenant_%06d", i), Name: "orders_audit", Flags: 1, Cols: []ref.Column{
+				ref.ColInt(ref.TLongLong, "seq", true), ref.ColBlob("note", 2)}}
+			evs = append(evs, ref.Q(ts, ta.DB, "BEGIN"), ref.TM(ts, ta), ref.TM(ts, tb),
+				ref.R(ts, ref.RowWrite, ta, ref.RowChange{After: rowA(int64(i), "o", int64(i%60000))}),
+				ref.R(ts, ref.RowWrite, tb, ref.RowChange{After: rowB(uint64(i), "a")}), ref.X(ts, uint64(i+1)))
+		}
+	case "big-transaction":
+		// one transaction of N rows events between two small ones
+		ta := TA(70)
+		ts := g.tick()
+		evs = append(evs, ref.Q(ts, "shop", "BEGIN"), ref.TM(ts, ta), ref.R(ts, ref.RowWrite, ta, ref.RowChange{After: rowA(1, "first", 1)}), ref.X(ts, 1))
+		evs = append(evs, ref.Q(ts, "shop", "BEGIN"), ref.TM(ts, ta))
+		for i := 0; i < in.N; i++ {
+			evs = append(evs, ref.R(ts, ref.RowWrite, ta, ref.RowChange{After: rowA(int64(i), "bulk", int64(i%60000))}))
+		}
+		evs = append(evs, ref.X(ts+1, 2))
+		evs = append(evs, ref.Q(ts+2, "shop", "BEGIN"), ref.TM(ts+2, ta), ref.R(ts+2, ref.RowDelete, ta, ref.RowChange{Before: rowA(1, "first", 1)}), ref.X(ts+2, 3))
+	case "kept-cells":
+		// N transactions of 100 rows of numeric cells on one table id, all kept by
+		// the handler (a per-table block of decoded cells that is recycled shows here)
+		t, row := numTable(2)
+		for i := 0; i < in.N; i++ {
+			ts := g.tick()
+			var rows []ref.RowChange
+			for r := 0; r < 100; r++ {
+				rows = append(rows, ref.RowChange{After: row((i*13 + r) % 120)})
+			}
+			evs = append(evs, ref.Q(ts, "shop", "BEGIN"), ref.TM(ts, t), ref.R(ts, ref.RowWrite, t, rows...), ref.X(ts, uint64(i+1)))
+		}
+	case "wide-table":
+		// a table of N columns: every integer width, odd columns unsigned, values
+		// with the top bit set; VARCHAR columns so that the metadata block grows
+		t := &ref.Table{ID: 77, DB: "shop", Name: fmt.Sprintf("wide%d", in.N), Flags: 1}
+		img := ref.Image{}
+		types := []byte{ref.TTiny, ref.TShort, ref.TInt24, ref.TLong, ref.TLongLong}
+		bits := []uint{8, 16, 24, 32, 64}
+		for c := 0; c < in.N; c++ {
+			if c%3 == 2 {
+				t.Cols = append(t.Cols, ref.ColVarchar(fmt.Sprintf("v%d", c), 300))
+				img = append(img, ref.VVarchar(300, []byte(fmt.Sprintf("text-%d", c))))
+				continue
+			}
+			k := c % len(types)
+			uns := c%2 == 1
+			t.Cols = append(t.Cols, ref.ColInt(types[k], fmt.Sprintf("i%d", c), uns))
+			if uns {
+				v := ^uint64(0) >> (64 - bits[k])
+				if types[k] == ref.TLongLong {
+					img = append(img, ref.VUint64(v))
+				} else {
+					img = append(img, ref.VInt(types[k], int64(v), true))
+				}
+			} else {
+				img = append(img, ref.VInt(types[k], -1, false))
+			}
+		}
+		ts := g.tick()
+		evs = append(evs, ref.Q(ts, "shop", "BEGIN"), ref.TM(ts, t), ref.R(ts, ref.RowWrite, t, ref.RowChange{After: img}, ref.RowChange{After: img}),
+			ref.TM(ts, t), ref.R(ts, ref.RowUpdate, t, ref.RowChange{Before: img, After: img}), ref.TM(ts, t), ref.R(ts, ref.RowDelete, t, ref.RowChange{Before: img}), ref.X(ts, 1))
+	case "big-events":
+		// rows events of N bytes (beyond the driver's 4096-byte read buffer, below
+		// and above the 256 KiB it keeps), each followed by small packets while
+		// the values are still held
+		t := &ref.Table{ID: 78, DB: "shop", Name: "docs", Flags: 1, Cols: []ref.Column{ref.ColInt(ref.TLong, "id", false), ref.ColVarchar("title", 300), ref.ColBlob("body", 4)}}
+		for i := 0; i < 6; i++ {
+			ts := g.tick()
+			body := bytes.Repeat([]byte{byte('a' + i)}, in.N)
+			evs = append(evs, ref.TM(ts, t), ref.R(ts, ref.RowWrite, t, ref.RowChange{After: ref.Image{ref.VInt(ref.TLong, int64(i), false),
+				ref.VVarchar(300, []byte(fmt.Sprintf("document number %d", i))), ref.VBlob(4, body)}}),
+				ref.Q(ts, "shop", fmt.Sprintf("CREATE TABLE t%d (a int)", i)))
+		}
+	}
+	h := &ref.History{Cfg: in.Cfg, Files: []*ref.File{{Name: "mysql-bin.000001", Events: evs}}}
+	h.Layout()
+	return h
+}
+
+func checkScale(in ScaleInput) string {
+	h := scaleHistory(in)
+	return checkCustom(h, hx.NewMapper(TablesOf(h)...))
+}
+
+// RunScale streams histories that are large in one dimension each.
+func RunScale(r *chk.Run) {
+	cfgA := ref.Cfg{Checksum: ref.ChecksumCRC32, RowsV2: true, TableID6: true, ServerID: 5, ServerVer: "5.7.30-log"}
+	cfgB := ref.Cfg{Checksum: ref.ChecksumOff, RowsV2: false, TableID6: false, ServerID: 5, ServerVer: "5.5.62"}
+	ids, bulk := 40000, 20000
+	if r.Thorough() {
+		ids, bulk = 200000, 70000
+	}
+	cases := []ScaleInput{
+		{"table-ids", ids, cfgA}, {"table-ids", 3000, cfgB},
+		{"big-transaction", bulk, cfgA}, {"big-transaction", 5000, cfgB},
+		{"kept-cells", 80, cfgA}, {"kept-cells", 20, cfgB},
+		{"wide-table", 70, cfgA}, {"wide-table", 130, cfgA}, {"wide-table", 300, cfgA}, {"wide-table", 300, cfgB}, {"wide-table", 1000, cfgA},
+		{"big-events", 6000, cfgA}, {"big-events", 6000, cfgB}, {"big-events", 70000, cfgA}, {"big-events", 300000, cfgA},
+	}
+	var n int64
+	for _, in := range cases {
+		if r.Expired() {
+			r.SetExhaustive(false)
+			return
+		}
+		in := in
+		n++
+		if why := checkScale(in); why != "" && why != "HUNG" {
+			r.Report(chk.Violation{Key: "scale:" + in.Case, What: fmt.Sprintf("%s n=%d cfg=%s: %s", in.Case, in.N, CfgName(in.Cfg), why),
+				Kind: "scale", Replay: in, Recheck: func() string { return checkScale(in) }})
+		}
+	}
+	r.Eval(n)
+	r.DistinctN(n)
+	r.Set("scale_histories", fmt.Sprintf("%d two-table statements on tables with ids and names of their own; one transaction of %d rows events; 80 x 100 kept numeric rows on one table id; tables of 70 / 130 / 300 / 1000 columns; rows events of 6 KB / 70 KB / 300 KB each followed by small packets", ids, bulk))
+}
+
+// ReplayScale replays a scale execution.
+func ReplayScale(input json.RawMessage) (bool, string) {
+	var in ScaleInput
+	if err := json.Unmarshal(input, &in); err != nil {
+		return false, err.Error()
+	}
+	why := checkScale(in)
+	if why == "" {
+		return false, "every transaction is delivered as the master logged it and stays so"
+	}
+	return true, why
+}
